@@ -128,6 +128,9 @@ Definition irefs (i : instr) : list nat :=
 (* references the container itself put into a local vector *)
 Definition crefs (i : instr) : list nat :=
   match i with ICb _ _ ec _ => ec | IClear src l => if Nat.eqb src SRC_DROP then [] else l | _ => [] end.
+(* references that are not the container's own: the parameter of add, a client reference being dropped *)
+Definition arefs (i : instr) : list nat :=
+  match i with IAddLock o => [o] | IClear src l => if Nat.eqb src SRC_DROP then l else [] | _ => [] end.
 (* destructors about to run *)
 Definition idtor (i : instr) : list nat := match i with IDtor _ o => [o] | _ => [] end.
 
@@ -243,7 +246,7 @@ Record InvC (g : glob) (ls : list loc) : Prop := {
   (* every push into the vector is a vector entry, an entry of a local vector, or a released reference *)
   C_cons : forall o, cnt o (addlog (gh g)) = cnt o (vec g) + tot crefs o ls + cnt o (rlog (gh g));
   (* a selected object has left the vector, has no client owner, and exactly the local reference *)
-  C_reaped : forall o, In o (reaped (gh g)) -> cnt o (vec g) = 0 /\ ext g o = 0 /\ rc g o <= 1 /\ created g o = true;
+  C_reaped : forall o, In o (reaped (gh g)) -> cnt o (vec g) = 0 /\ ext g o = 0 /\ tot arefs o ls = 0 /\ rc g o <= 1 /\ created g o = true;
   C_dead : cstate g = 2 -> vec g = []
 }.
 
@@ -292,3 +295,98 @@ Section ExecC.
     pose proof (tot_ge f o ls t l Hl) as H. rewrite Hs in H. cbn [flat_map] in H. rewrite cnt_app in H. lia.
   Qed.
 End ExecC.
+
+Ltac tsf TSv o :=
+  let T1 := fresh "T1" in let T2 := fresh "T2" in let T3 := fresh "T3" in let T4 := fresh "T4" in
+  pose proof (TSv irefs o) as T1; pose proof (TSv idtor o) as T2; pose proof (TSv crefs o) as T3; pose proof (TSv arefs o) as T4;
+  cbn [irefs idtor crefs arefs flat_map app Nat.eqb SRC_DROP SRC_CLEAR SRC_UNWIND SRC_VECTOR] in T1, T2, T3, T4;
+  rewrite ?app_nil_r in T1, T2, T3, T4;
+  rewrite ?cnt_app, ?cnt_cons, ?cnt_nil, ?Nat.add_0_r in T1;
+  rewrite ?cnt_app, ?cnt_cons, ?cnt_nil, ?Nat.add_0_r in T2;
+  rewrite ?cnt_app, ?cnt_cons, ?cnt_nil, ?Nat.add_0_r in T3;
+  rewrite ?cnt_app, ?cnt_cons, ?cnt_nil, ?Nat.add_0_r in T4.
+Ltac vrw := repeat match goal with H : vec ?g = _ |- context[vec ?g] => rewrite H end.
+Ltac life_same TSv HL ls t :=
+  let o := fresh "o" in intros o; tsf TSv o; specialize (HL o); cbn -[cnt tot] in *;
+  replace (tot idtor o (upd ls t _)) with (tot idtor o ls) by lia; exact HL.
+Ltac reaped_same TSv HP :=
+  let o := fresh "o" in let Ho := fresh "Ho" in
+  intros o Ho; tsf TSv o; destruct (HP o Ho) as [? [? [? [? ?]]]]; repeat split; (assumption || lia).
+Ltac fin_simple TSv HR HL HC HP HD ls t :=
+  constructor; unfold ext, dcnt, created; cbn -[cnt tot]; vrw;
+  [ let o := fresh "o" in intros o; tsf TSv o; rewrite ?(HR o); vrw; lia
+  | life_same TSv HL ls t
+  | let o := fresh "o" in intros o; tsf TSv o; rewrite ?(HC o); vrw; lia
+  | reaped_same TSv HP
+  | first [exact HD | discriminate | reflexivity | (intros; congruence)] ].
+
+Lemma upd_upd {A} (ls : list A) t a b : upd (upd ls t a) t b = upd ls t b.
+Proof. revert t; induction ls; destruct t; cbn; intros; try rewrite IHls; auto. Qed.
+
+(* pushing instructions on top of a thread's stack *)
+Lemma tot_push f o ls t l push p r : nth_error ls t = Some l ->
+  tot f o (upd ls t (Loc p (push ++ stk l) r)) = tot f o ls + cnt o (flat_map f push).
+Proof.
+  intros H. pose proof (tot_upd f o ls t l (Loc p (push ++ stk l) r) H) as E.
+  cbn [stk] in E. rewrite flat_map_app, cnt_app in E. lia.
+Qed.
+
+Lemma created_mono g o : created g o = true ->
+  (1 <=? o) && (o <=? S (nobj g)) = true.
+Proof. unfold created. intros H. apply andb_true_iff in H as [A B]. apply Nat.leb_le in B. rewrite A. apply Nat.leb_le. lia. Qed.
+
+Lemma new_obj_InvC g ls t l dm cm g2 x p r :
+  InvC g ls -> nth_error ls t = Some l -> new_obj g dm cm = (g2, x) ->
+  x = S (nobj g) /\ InvC g2 (upd ls t (Loc p ([IAddLock x] ++ stk l) r)).
+Proof.
+  intros HI Hl Hn. unfold new_obj in Hn. inversion Hn; subst; clear Hn. split; [reflexivity|].
+  set (x := S (nobj g)).
+  pose proof (fun f o => tot_push f o ls t l [IAddLock x] p r Hl) as TP.
+  pose proof (C_rc _ _ HI) as HR. pose proof (C_life _ _ HI) as HL. pose proof (C_cons _ _ HI) as HC.
+  pose proof (C_reaped _ _ HI) as HP. pose proof (C_dead _ _ HI) as HD.
+  destruct (created_rc0 g ls x HI (created_new g)) as [X1 [X2 [X3 X4]]].
+  pose proof (HL x) as HLx. rewrite X1 in HLx. cbn [Nat.eqb] in HLx.
+  pose proof (created_new g) as CN. fold x in CN. rewrite CN in HLx.
+  constructor; unfold ext, dcnt, created in *; cbn -[cnt tot].
+  - intros o. rewrite TP. cbn [flat_map irefs app]. rewrite cnt_cons, cnt_nil.
+    destruct (Nat.eqb_spec x o) as [<-|Hne]; [rewrite fupd_eq; lia|rewrite fupd_ne by auto; rewrite (HR o); lia].
+  - intros o. rewrite TP. cbn [flat_map idtor app]. rewrite cnt_nil, Nat.add_0_r. specialize (HL o).
+    destruct (Nat.eqb_spec x o) as [<-|Hne].
+    + rewrite fupd_eq. cbn [Nat.eqb]. split; [|exact HLx]. unfold x. cbn [Nat.leb andb]. apply Nat.leb_refl.
+    + rewrite fupd_ne by auto.
+      assert ((o <=? x) = (o <=? nobj g)) as ->.
+      { unfold x. destruct (Nat.leb_spec o (S (nobj g))), (Nat.leb_spec o (nobj g)); auto; lia. }
+      exact HL.
+  - intros o. rewrite TP. cbn [flat_map crefs app]. rewrite cnt_nil, Nat.add_0_r. apply HC.
+  - intros o Ho. rewrite TP. cbn [flat_map arefs app]. rewrite cnt_cons, cnt_nil.
+    destruct (HP o Ho) as [A [B [C [D F]]]].
+    assert (o <> x) as Hne by (apply created_S; exact F).
+    rewrite fupd_ne by auto. destruct (Nat.eqb_spec x o); [congruence|].
+    repeat split; auto; try lia. apply (created_mono g o F).
+  - exact HD.
+Qed.
+
+Lemma reenter_InvC g ls t l m g2 push p r :
+  InvC g ls -> nth_error ls t = Some l -> reenter g m = (g2, push) ->
+  InvC g2 (upd ls t (Loc p (push ++ stk l) r)).
+Proof.
+  intros HI Hl Hr.
+  pose proof (fun f o => tot_push f o ls t l push p r Hl) as TP.
+  pose proof (C_rc _ _ HI) as HR. pose proof (C_life _ _ HI) as HL. pose proof (C_cons _ _ HI) as HC.
+  pose proof (C_reaped _ _ HI) as HP. pose proof (C_dead _ _ HI) as HD.
+  unfold reenter in Hr.
+  assert (Same : forall push0, flat_map irefs push0 = [] -> flat_map idtor push0 = [] -> flat_map crefs push0 = [] ->
+                 flat_map arefs push0 = [] -> InvC g (upd ls t (Loc p (push0 ++ stk l) r))).
+  { intros push0 Z1 Z2 Z3 Z4. pose proof (fun f o => tot_push f o ls t l push0 p r Hl) as TP0.
+    constructor.
+    - intros o. rewrite TP0, Z1, cnt_nil, Nat.add_0_r. apply HR.
+    - intros o. rewrite TP0, Z2, cnt_nil, Nat.add_0_r. apply HL.
+    - intros o. rewrite TP0, Z3, cnt_nil, Nat.add_0_r. apply HC.
+    - intros o Ho. rewrite TP0, Z4, cnt_nil, Nat.add_0_r. apply HP, Ho.
+    - exact HD. }
+  destruct (cstate g) eqn:Cs; [|inversion Hr; subst; apply (Same []); reflexivity].
+  destruct m as [|[|[|[|[|m]]]]]; try (inversion Hr; subst; apply (Same _); reflexivity).
+  destruct (new_obj g 0 0) as [g3 x] eqn:N. inversion Hr; subst.
+  apply (new_obj_InvC g ls t l 0 0 g2 x p r HI Hl N).
+Qed.
+
